@@ -168,6 +168,11 @@ func build(cfg *CheckCfg) (*buildOut, error) {
 	t0 := time.Now()
 	before := repoStatus()
 	bdir := filepath.Join(verifDir, "build", cfg.ID)
+	if repoDir != "/repo" {
+		// scratch trees (seeded changes, pre-fix commits) get their own build
+		// directory: a run against /repo may be going on at the same time
+		bdir = filepath.Join(verifDir, "build", cfg.ID+"-"+strings.Trim(strings.ReplaceAll(repoDir, "/", "_"), "_"))
+	}
 	os.RemoveAll(bdir)
 	if err := os.MkdirAll(filepath.Join(bdir, "inst"), 0o755); err != nil {
 		return nil, err
